@@ -816,11 +816,12 @@ def build(repo):
     F_SCHED = T.F_SCHED
     impl(U, F_SCHED, "ValidatorInfo", "proto::ValidatorInfo",
          "proto::ValidatorInfo { key: Some(self.key.enc()), weight: Some(self.weight), leader: Some(self.leader) }")
-    impl(U, F_SCHED, "LeaderSelectionMode", "proto::LeaderSelectionMode", """proto::LeaderSelectionMode { mode: Some(match self {
+    impl(U, F_SCHED, "LeaderSelectionMode", "proto::LeaderSelectionMode", props=["C09", "C11"], enc="""proto::LeaderSelectionMode { mode: Some(match self {
             LeaderSelectionMode::RoundRobin => proto::leader_selection_mode::Mode::RoundRobin(proto::leader_selection_mode::RoundRobin {}),
             LeaderSelectionMode::Weighted => proto::leader_selection_mode::Mode::Weighted(proto::leader_selection_mode::Weighted {}),
         }) }""")
-    impl(U, F_SCHED, "LeaderSelection", "proto::LeaderSelection",
+    # C11 too: all nodes compute the same leader only if the decoded selection rule (frequency 0 included) is the encoded one
+    impl(U, F_SCHED, "LeaderSelection", "proto::LeaderSelection", props=["C09", "C11"], enc=
          "proto::LeaderSelection { frequency: Some(self.frequency), mode: Some(self.mode.enc()) }")
     # ---- discovery, top-level Msg, Signed
     F_DISC = T.M + "discovery.rs"
